@@ -211,6 +211,8 @@ class NpModel:
         def _asarray(ex, args, kw):
             if N.is_arr(args[0]) or (isinstance(args[0], VRef) and args[0].sort == "NdArray"):
                 return args[0]
+            if isinstance(args[0], (VList, VTuple, VSeq, VInt)):
+                return args[0]  # a python list/int converted to an array of the same elements
             return N.unknown(ex, "asarray")
 
         @np_fn("abs")
